@@ -109,3 +109,24 @@ package server
 //@   ensures [well-formed] result == nil ==> len(h.token) == 20
 //@   callpre ioutil.WriteFile: filename == tokpath(h) && str(data) == uid
 //@   modifies h.token, *uid, fexists, fcontent
+//
+// ---- goroutines started by the server (property C01): a panic outside a recover ends the process ----
+// handle runs every connection under a recover registered first; its recover closure, the accept loop,
+// the heartbeat and the ping runner cannot panic (safety kinds checked; channel operations and the
+// event bus are outside, see the assumed contracts).
+//@ func (*Honeytrap).handle
+//@   noescape
+//@   modifies *
+//@ func (*Honeytrap).handle$1
+//@   check safety
+//@   modifies *
+//@ func (*Honeytrap).heartbeat
+//@   check safety
+//@   modifies *
+//@ func (*Honeytrap).startPing$1
+//@   check safety
+//@   modifies *
+//@ func (*Honeytrap).Run$1
+//@   check safety
+//@   requires l != nil
+//@   modifies *
